@@ -599,9 +599,26 @@ def rule_metric(ctx):
             bound = {k_: str(norm(x_)) for k_, x_ in bind_args(a_, g).items()}
             ok = order_ok and bound == dict(zip(g.params, ("earth_radius", lat, lon))) and not narrow
         else:
-            ok = t in ("np.radians(np.column_stack([%s, %s]))" % (lat, lon), "np.deg2rad(np.column_stack([%s, %s]))" % (lat, lon),
-                       "np.column_stack([np.radians(%s), np.radians(%s)])" % (lat, lon),
-                       "np.column_stack([np.deg2rad(%s), np.deg2rad(%s)])" % (lat, lon)) and not narrow
+            def _last(c_):
+                return (dotted(c_.func) or "").split(".")[-1] if isinstance(c_, ast.Call) else None
+
+            def _cols(c_):
+                """[columns] of a column_stack of a two-element list / tuple"""
+                if _last(c_) == "column_stack" and len(c_.args) == 1 and isinstance(c_.args[0], (ast.List, ast.Tuple)) and len(c_.args[0].elts) == 2:
+                    return list(c_.args[0].elts)
+                return None
+            RAD = ("radians", "deg2rad")
+            cols = None
+            if _last(v) in RAD and len(v.args) == 1 and _cols(v.args[0]) is not None:
+                cols = [str(norm(e_)) for e_ in _cols(v.args[0])]
+            elif _cols(v) is not None and all(_last(e_) in RAD and len(e_.args) == 1 for e_ in _cols(v)):
+                cols = [str(norm(e_.args[0])) for e_ in _cols(v)]
+            if cols is None:
+                if narrow:
+                    cols = []
+                else:
+                    raise AnalysisError("_to_metric[haversine]: the returned value %s is not radians of the stacked (lat, lon) columns" % t[:80])
+            ok = cols == [lat, lon] and not narrow
             want = "np.radians(np.column_stack([%s, %s]))  (latitude first: sklearn's haversine contract)" % (lat, lon)
         ctx.ob("GeoIndex._to_metric[%s]" % m, ok, "returns %s%s" % (t, ("  [narrowing cast %s]" % narrow) if narrow else ""),
                want + " in double precision", node=r, func=f)
